@@ -97,6 +97,8 @@ def show_axis(a):
 def to_item(it):
     if it[0] == "i":
         return it[1]
+    if it[0] == "z":  # rank-0 integer array: selects like a number
+        return np.array(it[1])
     if it[0] == "sl":
         return slice(it[1], it[2], it[3])
     if it[0] == "ix":
@@ -106,7 +108,7 @@ def to_item(it):
 
 def item_s(it):
     o = lambda v: "_" if v is None else str(v)
-    if it[0] == "i":
+    if it[0] in ("i", "z"):
         return f"i:{it[1]}"
     if it[0] == "sl":
         return f"sl:{o(it[1])}:{o(it[2])}:{o(it[3])}"
@@ -163,7 +165,7 @@ def gen_kwargs(rng, cls, values_kind=None):
 def gen_item(rng, n):
     k = rng.random()
     if k < 0.3:
-        return ["i", rng.randint(-n - 2, n + 1)]
+        return [rng.choice(["i", "i", "z"]), rng.randint(-n - 2, n + 1)]
     if k < 0.65:
         o = lambda: rng.choice([None, None, rng.randint(-n - 2, n + 2)])
         return ["sl", o(), o(), rng.choice([None, None, 1, 2, 3, -1, -2, 0 if rng.random() < 0.3 else 1])]
@@ -230,6 +232,7 @@ class C35(Property):
             try:
                 d = list(axis_to_dict(make(cls, gen_kwargs(rng, cls))).items())
             except Exception:  # noqa
+                ctx.count("fromdict:generator-skip")
                 continue
             u = rng.random()
             rng.shuffle(d)
@@ -251,6 +254,35 @@ class C35(Property):
             case = dict(cls=cls, kwargs=kw, item=it)
             add(f"getitem {cls} {fields_s(kw)} {item_s(it)}", "OrdinalAxis.__getitem__", case, lambda: show_axis(make(cls, kw)[to_item(it)]))
             ctx.count(f"getitem:{it[0]}")
+        # indexing of linear axes (forward slices only) and of classes that are not subscriptable
+        for _ in range(ctx.n(150, 1500)):
+            cls = rng.choice(LINEAR + LINEAR + PLAIN)
+            kw = gen_kwargs(rng, cls)
+            it = gen_item(rng, rng.randint(0, 6))
+            if it[0] == "sl" and rng.random() < 0.7:
+                it = ["sl", rng.choice([None, 0, 1, 2, 5]), rng.choice([None, 3, 7]), rng.choice([None, 1, 2, 3])]
+            case = dict(cls=cls, kwargs=kw, item=it)
+            add(f"getitem {cls} {fields_s(kw)} {item_s(it)}", "LinearAxis.__getitem__ / not subscriptable", case,
+                lambda: show_axis(make(cls, kw)[to_item(it)]))
+            ctx.count(f"getitem-nonordinal:{'linear' if cls in LINEAR else 'plain'}:{it[0]}")
+        # pieces of one linear axis (differ only in the offset) and near misses: drawn at every seed
+        for _ in range(ctx.n(80, 800)):
+            cls = rng.choice(LINEAR)
+            kw = [(k, v) for k, v in gen_kwargs(rng, cls) if k != "offset"]
+            cls2 = cls if rng.random() < 0.7 else rng.choice(LINEAR)
+            kw2 = list(kw)
+            u = rng.random()
+            if u < 0.2:
+                kw2 = [(k, v) for k, v in kw2 if k != "sampling"] + [("sampling", 0.37)]
+            elif u < 0.3:
+                kw2 = [(k, v) for k, v in kw2 if k != "label"] + [("label", "other")]
+            kw2 = [(k, v) for k, v in kw2 if k in {f.name for f in dataclasses.fields(make(cls2, []))}]
+            kwa = kw + [("offset", dyadic(rng, -4, 4, 3))]
+            kwb = kw2 + [("offset", dyadic(rng, -4, 4, 3))]
+            case = dict(cls=cls, kwargs=kwa, cls2=cls2, kwargs2=kwb)
+            add(f"concat {cls} {fields_s(kwa)} {cls2} {fields_s(kwb)}", "concatenate", case,
+                lambda: show_axis(make(cls, kwa).concatenate(make(cls2, kwb))))
+            ctx.count("concat:linear-pieces")
         # concatenation
         for _ in range(ctx.n(250, 2500)):
             cls = rng.choice(ORDINAL + ORDINAL + LINEAR + PLAIN)
@@ -325,6 +357,17 @@ class C35(Property):
                 want = [a.offset + i * a.sampling for i in range(n)]
                 if len(got) != n or any(abs(g - w) > 1e-12 * max(1, abs(w)) for g, w in zip(got, want)):
                     ctx.violation(f"linear-coordinates-wrong:{cls}", c, dict(n=n, got=got, want=want))
+            # forward slices of a linear axis have the sliced coordinates; pieces join back to the first piece
+            for st, sp in ((0, 1), (2, 1), (1, 2), (3, 3)):
+                piece = a[slice(st, None, sp if sp != 1 else None)]
+                got = [float(x) for x in piece.coordinates(3)]
+                want = [float(x) for x in a.coordinates(st + 3 * sp)][st::sp][:3]
+                if type(piece) is not type(a) or not (len(got) == 3 and all(abs(g - w) <= 1e-12 * max(1, abs(w)) for g, w in zip(got, want))):
+                    ctx.violation(f"linear-slice-coordinates-wrong:{cls}", c, dict(start=st, step=sp, got=got, want=want))
+                if sp == 1 and a._concatenate:
+                    j = a.concatenate(piece)
+                    if type(j) is not type(a) or not same_fields(axis_fields(j), axis_fields(a)):
+                        ctx.violation(f"linear-pieces-do-not-join:{cls}", c, dict(start=st))
         # 3. ordinal: slicing, integer item, index lists, masks, concatenation
         if cls in ORDINAL:
             vals = tuple(a.values)
@@ -333,8 +376,8 @@ class C35(Property):
             for it in c.get("items", []):
                 item = to_item(it)
                 try:
-                    if it[0] == "i":
-                        want = (vals[item],)
+                    if it[0] in ("i", "z"):
+                        want = (vals[int(item)],)
                     elif it[0] == "sl":
                         want = vals[item]
                     elif it[0] == "ix":
@@ -366,6 +409,21 @@ class C35(Property):
                 ctx.violation("concatenate-values-wrong", c, dict(got=list(cat.values)))
             if tuple(a.coordinates(n)) != vals:
                 ctx.violation("ordinal-coordinates-are-not-values", c, {})
+            # values given as a 2-D array (as abtem/prism/s_matrix.py does): the dict round trip must compare equal
+            if n and all(isinstance(x, tuple) and len(x) == 2 and all(isinstance(y, float) for y in x) for x in vals):
+                a2 = make(cls, [(k, v) for k, v in kw if k != "values"])
+                a2 = type(a2)(**{**{k: v for k, v in axis_fields(a2) if k != "values"}, "values": np.array(vals)})
+                b2 = axis_from_dict(axis_to_dict(a2))
+                same_vals = len(b2.values) == len(a2.values) and all(np.array_equal(x, y) for x, y in zip(b2.values, a2.values))
+                if type(b2) is not type(a2) or not same_vals or not (b2 == a2):
+                    ctx.violation("roundtrip-not-equal-for-array-values", c, dict(equal=bool(b2 == a2), same_values=same_vals))
+                ctx.count("oracle:array-values-roundtrip")
+            # a rank-0 integer index array selects like a number
+            if n:
+                k0 = len(c.get("other", [])) % n
+                g0 = a[np.array(k0)]
+                if tuple(g0.values) != (vals[k0],):
+                    ctx.violation("getitem-rank0-index-array-wrong", c, dict(index=k0, got=repr(g0.values)[:200]))
 
     def gen_case(self, rng):
         cls = rng.choice(ALL + ORDINAL)
